@@ -377,7 +377,7 @@ Definition serialize_h1 (a : accepted) : list N :=
 (* ------------------------------------------------------------------ *)
 (** * (d) Content-Length vs DATA ([handle_data_frame], trailers path) *)
 
-Inductive ev := Data (len : N) (end_stream : bool) | Trailers.
+Inductive ev := Data (len : N) (end_stream : bool) | Trailers | Cancel.   (* Cancel: RST_STREAM from the client *)
 Inductive outcome := Open (received : N) | Complete (received : N) | Reset.
 
 Fixpoint data_agree (declared : option N) (received : N) (evs : list ev) : outcome :=
@@ -397,7 +397,15 @@ Fixpoint data_agree (declared : option N) (received : N) (evs : list ev) : outco
     | Some n => if negb (received =? n) then Reset else Complete received
     | None => Complete received
     end
+  | Cancel :: _ => Reset
   end.
+
+(** the end of a stream on an HTTP/2 BACKEND connection ([ConnectionH2::end_stream], client side):
+    unless the stream is closed in both directions (the response ended, the request was sent to its
+    end) or was reset already, RST_STREAM is queued for it: the backend never keeps a half-open
+    request on a connection that goes on carrying other streams. *)
+Definition h2_rst_on_end (response_ended request_ended already_reset : bool) : bool :=
+  negb (response_ended && request_ended) && negb already_reset.
 
 (* ------------------------------------------------------------------ *)
 (** * (e) [pkawa::handle_trailer] on a request trailer block
